@@ -109,6 +109,8 @@ func podClass(scenario string) string {
 		return "whole-gpu"
 	case scenario == "dra-claim":
 		return "dra"
+	case scenario == "dra-shared-claim":
+		return "dra-shared"
 	case scenario == "fraction-dra-claim":
 		return "single-fraction+dra"
 	case strings.HasPrefix(scenario, "multi-fraction"):
